@@ -1,5 +1,5 @@
 (* Props/C09.v — ReadWriteTake never delivers or consumes more than its limit. *)
-From FB Require Import Sem.Base Sem.Lemmas Model.Adapters Spec.StdAdapters Facets.Adapters.
+From FB Require Import Sem.Base Sem.Lemmas Model.Adapters Model.Serve Spec.StdAdapters Facets.Adapters Facets.C07 Facets.Streams.
 Open Scope Z_scope.
 
 (* exact behaviour of one read, for any inner object, any limit in [0, u64::MAX], both overflow profiles *)
@@ -50,7 +50,23 @@ Example c09_ex :
   take_read true R (repeat 0 8) (take_new [97;98;99;100;101] 3) = Val (Ok 3, [97;98;99;0;0;0;0;0]) {| t_rem := 0; t_rw := [100; 101] |}.
 Proof. vm_compute. reflexivity. Qed.
 
+(* stream level: over ANY inner reader that delivers a fixed remaining sequence in order, and ANY schedule of destination lengths
+   (zero-length ones anywhere), the take delivers exactly the first min(n, available) bytes, leaves every later byte unread in the
+   inner reader, and its allowance ends at n - delivered *)
+Theorem c09_stream : forall S chk (Src : Reader S) rem okS, prefix_source Src rem okS ->
+  forall fuel dests acc w, okS (t_rw w) -> 0 <= t_rem w -> Forall (fun d => 0 <= d) dests ->
+  (length dests + Z.to_nat (Z.min (t_rem w) (zlen (rem (t_rw w)))) + 2 <= fuel)%nat ->
+  let n' := Z.min (t_rem w) (zlen (rem (t_rw w))) in
+  exists w', drain_gen chk Src fuel dests acc w = (acc ++ firstn (Z.to_nat n') (rem (t_rw w)), DrOk, w') /\
+    rem (t_rw w') = skipn (Z.to_nat n') (rem (t_rw w)) /\ t_rem w' = t_rem w - n' /\ okS (t_rw w').
+Proof. intros S chk Src rem okS H. exact (drain_spec chk Src rem okS H). Qed.
+
+Example c09_stream_ex :
+  drain_gen true list_rd 20 [0; 2; 0; 8] [] (take_new [97; 98; 99; 100; 101] 3) = ([97; 98; 99], DrOk, {| t_rem := 0; t_rw := [100; 101] |}).
+Proof. vm_compute. reflexivity. Qed.
+
 Print Assumptions c09_read.
+Print Assumptions c09_stream.
 Print Assumptions c09_sim.
 Print Assumptions c09_exhausted_silent.
 Print Assumptions c09_request_bound.
